@@ -193,8 +193,10 @@ SRC_MARKERS = {n: Marker(n) for n in ("io.BufferedIOBase", "io.TextIOWrapper", "
 _FILE_KINDS = {"io.BufferedIOBase", "io.BufferedReader", "io.IOBase"}
 
 
-def file_source(data: bytes) -> Obj:
-    st = {"pos": 0, "reads": 0}
+def file_source(data: bytes, position: int = 0) -> Obj:
+    """A binary file object; ``position`` is where the handle stands when it is given to the library (a caller may have
+    peeked at the file before)."""
+    st = {"pos": position, "reads": 0}
 
     def read(n=-1):
         st["reads"] += 1
